@@ -220,8 +220,18 @@ def _tail_yield_shape(fdef):
     loop = body[-1]
     if loop.orelse or not loop.body:
         return False
-    last = loop.body[-1]
-    if not (isinstance(last, ast.Expr) and last.value is yields[0]):
+    def tail(block):
+        # the yield ends the iteration: last statement of the body, or of an
+        # if-branch that is itself in tail position
+        if not block:
+            return False
+        last_ = block[-1]
+        if isinstance(last_, ast.Expr) and last_.value is yields[0]:
+            return True
+        if isinstance(last_, ast.If):
+            return tail(last_.body) or tail(last_.orelse)
+        return False
+    if not tail(loop.body):
         return False
     # no other loop may hold the yield, and the prelude has no loops that
     # a `break` could be confused with
@@ -959,7 +969,10 @@ class Inliner(object):
                 return node
 
             def visit_Return(self, node):
-                ok[0] = False
+                # a bare return ends the generator, i.e. the consumer's
+                # loop: the end of the unrolled block (inline exit)
+                if node.value is not None:
+                    ok[0] = False
                 return node
 
             def visit_FunctionDef(self, node):
